@@ -67,8 +67,9 @@ def configure(cfg, r, tier):
     cfg["p_slow"] = r.choice([0.03, 0.06])
     cfg["p_twin"] = 0.03
     # frozen inputs are inputs too
+    frozen_world = r.random() < 0.25  # a quarter of the runs observe (mostly) frozen networks
     for k in ("H", "DH", "SC"):
-        cfg["ops"][k]["freeze"] = 0.2
+        cfg["ops"][k]["freeze"] = 25.0 if frozen_world else 0.2
     # set-valued attributes (union merge of duplicate edges) are inputs too
     cfg["ops"]["H"]["dup_edge"] = 4.0
     cfg["ops"]["H"]["merge_duplicate_edges"] = 3.0
